@@ -5,6 +5,7 @@ package otter
 import (
 	"errors"
 	"math"
+	"os"
 	"time"
 
 	"github.com/maypok86/otter/v2/internal/deque"
@@ -83,6 +84,15 @@ func ghost_clpCount[K comparable, V any](m *hashmap.Map[K, V, *call[K, V]]) int 
 
 // number of wg.Done() calls on the wait group of a call (waiters released)
 func ghost_wgDone[K comparable, V any](c *call[K, V]) int { panic("ghost") }
+
+// ghost_released(c): the wait group of call c has been released at least once (set by sync.WaitGroup.Done)
+func ghost_released[K comparable, V any](c *call[K, V]) bool { panic("ghost") }
+
+// ghost_iter(): inside an invariant of a range-over-slice loop, the number of completed iterations
+func ghost_iter() int { panic("ghost") }
+
+// ghost_fileTruncated(f): the open that produced f truncated the file (os.Create, or os.OpenFile with O_TRUNC)
+func ghost_fileTruncated(f *os.File) bool { panic("ghost") }
 
 func mapHas[K comparable, V any](m map[K]V, k K) bool {
 	_, ok := m[k]
@@ -415,7 +425,9 @@ func estOf[K comparable](s *sketch[K], k K) uint64 {
 // ... plus the call log of the maintenance steps and the clock reading of the sweep
 //@ macro MAINT = $MAINT0, ghost_calls_maintenance(), ghost_calls_runTask(), ghost_calls_expireNodes(), ghost_calls_evictNodes(), ghost_calls_DeleteExpired(), ghost_calls_deleteExpiredFromBucket(), ghost_calls_expireNode(), ghost_now(), ghost_clockRead(), task::*
 
-//@ macro CACHEFX = $MAINT, $EVLOG, $ONDEL, $ATOMICEV, $WHOOKS, ghost_calls(*), node::expiresAt, node::refreshableAt, ghost_wgDone(*), call::wg, ghost_calls_afterWrite(), ghost_calls_afterDelete(), ghost_queued(), ghost_calls_performCleanUp(), ghost_calls_afterWriteTask(), ghost_calls_runTask(), ghost_calls_getTask(), ghost_now(), ghost_clockRead(), ghost_calls_ExpireAfterRead(), ghost_ret_ExpireAfterRead(), task::*, ghost_buffered(*)
+//@ macro CACHEFX0 = $MAINT, $EVLOG, $ONDEL, $ATOMICEV, $WHOOKS, ghost_calls(*), node::expiresAt, node::refreshableAt, ghost_calls_afterWrite(), ghost_calls_afterDelete(), ghost_queued(), ghost_calls_performCleanUp(), ghost_calls_afterWriteTask(), ghost_calls_runTask(), ghost_calls_getTask(), ghost_now(), ghost_clockRead(), ghost_calls_ExpireAfterRead(), ghost_ret_ExpireAfterRead(), task::*, ghost_buffered(*)
+
+//@ macro CACHEFX = $CACHEFX0, ghost_wgDone(*), ghost_released(*), call::wg
 
 //@ macro LOADFX = $CACHEFX, call::value, call::err, call::isNotFound, ghost_calls_load(), ghost_calls_afterFinish(), ghost_calls_doCall(), ghost_calls_startCall(), ghost_loadSuccess(), ghost_loadFailure(), ghost_calls_fn(), ghost_ret_fn(), ghost_calls_Error(), ghost_calls_wait(), ghost_waited(*), ghost_calls_newPanicError(), ghost_calls_BulkLoad(), ghost_calls_BulkReload()
 
@@ -888,6 +900,7 @@ func estOf[K comparable](s *sketch[K], k K) uint64 {
 //@   ensures [C05:policy-told-iff-table-changed] ghost_calls_afterWrite() == pre(ghost_calls_afterWrite()) + pickInt(lpend(ghost_lpNew(c.hashmap)) != lpend(ghost_lpCur(c.hashmap)), 1, 0)
 //@   ensures [C05:policy-told-the-right-nodes] lpend(ghost_lpNew(c.hashmap)) != lpend(ghost_lpCur(c.hashmap)) ==> ghost_last_afterWrite_n[K, V]() == lpend(ghost_lpNew(c.hashmap)) && ghost_last_afterWrite_old[K, V]() == lpend(ghost_lpCur(c.hashmap))
 //@   ensures [C09:write-clears-call] lpend(ghost_lpNew(c.hashmap)) != lpend(ghost_lpCur(c.hashmap)) && c.singleflight.isInitialized.Load() ==> lpend(ghost_calls(c.singleflight.calls, key)) == nil
+//@   ensures [C08:record-kept-when-nothing-written] lpend(ghost_lpNew(c.hashmap)) == lpend(ghost_lpCur(c.hashmap)) ==> lpend(ghost_calls(c.singleflight.calls, key)) == lp(ghost_calls(c.singleflight.calls, key))
 //@   ensures [C20:quiet] ghost_hits() == pre(ghost_hits()) && ghost_misses() == pre(ghost_misses())
 
 //@ func (*cache).Set : C01 C03 C06 C09
@@ -1065,6 +1078,7 @@ func estOf[K comparable](s *sketch[K], k K) uint64 {
 //@   modifies ghost_calls(g.calls, key)
 //@   ensures [C08:joins-existing-call] !shouldLoad ==> c != nil && same(c.key, key)
 //@   ensures [C08:creates-only-when-none-registered] shouldLoad ==> c != nil && ghost_clpCur(g.calls) == nil && ghost_clpNew(g.calls) == c && same(c.key, key) && c.isRefresh == isRefresh && !c.isFake
+//@   ensures @seq [C08:registers-exactly-when-no-record-exists] shouldLoad == (pre(ghost_calls(g.calls, key)) == nil) && ghost_calls(g.calls, key) == c && (!shouldLoad ==> c == pre(ghost_calls(g.calls, key)))
 //@   ensures [C08:second-caller-does-not-load] ghost_clpCount(g.calls) != pre(ghost_clpCount(g.calls)) && ghost_clpCur(g.calls) != nil ==> !shouldLoad && c == ghost_clpCur(g.calls) && ghost_clpNew(g.calls) == ghost_clpCur(g.calls)
 
 //@ func (*group).deleteCall : C08 C09
@@ -1099,13 +1113,13 @@ func estOf[K comparable](s *sketch[K], k K) uint64 {
 //@   ensures [finished-when-it-returns] ghost_waited(c)
 
 //@ func (*call).cancel : C08
-//@   modifies ghost_wgDone(c), c.wg
-//@   ensures [C08:release-once] ghost_wgDone(c) == pre(ghost_wgDone(c)) + pickInt(c.isFake, 0, 1)
+//@   modifies ghost_wgDone(c), ghost_released(c), c.wg
+//@   ensures [C08:release-once] ghost_wgDone(c) == pre(ghost_wgDone(c)) + pickInt(c.isFake, 0, 1) && (!c.isFake ==> ghost_released(c))
 
 //@ func (*cache).afterDeleteCall : C09 C10 C08 C11 C06 C01 C03 C13 C12
 //@   mode seq,itf
 //@   requires cfg(c) && c.singleflight != nil && cl != nil && c.singleflight.calls != nil && c.singleflight.isInitialized.Load()
-//@   modifies $CACHEFX
+//@   modifies $CACHEFX0, ghost_wgDone(cl), ghost_released(cl), cl.wg
 //@   ensures [clock-stable] pre(ghost_clockRead()) ==> ghost_clockRead() && ghost_now() == pre(ghost_now())
 //@   ensures [C09:install-only-own-call] lpend(ghost_lpNew(c.hashmap)) != lpend(ghost_lpCur(c.hashmap)) ==> cl.isFake || (lpend(ghost_clpCur(c.singleflight.calls)) == cl && lpend(ghost_clpNew(c.singleflight.calls)) == nil && lpend(ghost_clpCount(c.singleflight.calls)) != pre(ghost_clpCount(c.singleflight.calls)))
 //@   ensures [C09:own-record-checked-inside-the-critical-section] lpend(ghost_lpNew(c.hashmap)) != lpend(ghost_lpCur(c.hashmap)) && !cl.isFake ==> lp(ghost_clpCount(c.singleflight.calls)) == pre(ghost_clpCount(c.singleflight.calls)) && lpend(ghost_clpCount(c.singleflight.calls)) != lp(ghost_clpCount(c.singleflight.calls))
@@ -1115,7 +1129,7 @@ func estOf[K comparable](s *sketch[K], k K) uint64 {
 //@   ensures [C10:failure-leaves-cache-unchanged] cl.err != nil && !cl.isNotFound ==> lpend(ghost_lpNew(c.hashmap)) == lpend(ghost_lpCur(c.hashmap))
 //@   ensures [C10:notfound-caches-nothing] cl.isNotFound ==> lpend(ghost_lpNew(c.hashmap)) == nil || lpend(ghost_lpNew(c.hashmap)) == lpend(ghost_lpCur(c.hashmap))
 //@   ensures [C11:failed-reload-keeps-expiry] cl.err != nil && !cl.isNotFound && lpend(ghost_lpCur(c.hashmap)) != nil && c.withExpiration ==> lpend(ghost_expiresAt(ghost_tbl(c.hashmap, cl.key))) == lp(ghost_expiresAt(ghost_tbl(c.hashmap, cl.key)))
-//@   ensures [C08:waiters-released-once] ghost_wgDone(cl) == pre(ghost_wgDone(cl)) + pickInt(cl.isFake, 0, 1)
+//@   ensures [C08:waiters-released-once] ghost_wgDone(cl) == pre(ghost_wgDone(cl)) + pickInt(cl.isFake, 0, 1) && (!cl.isFake ==> ghost_released(cl))
 //@   ensures [C06:atomic-once] c.onAtomicDeletion != nil ==> lpend(ghost_calls_onAtomicDeletion()) == lp(ghost_calls_onAtomicDeletion()) + pickInt(lpend(ghost_lpCur(c.hashmap)) != nil && lpend(ghost_lpNew(c.hashmap)) != lpend(ghost_lpCur(c.hashmap)), 1, 0)
 //@   ensures [C05:policy-told-iff-table-changed] ghost_calls_afterWrite() == pre(ghost_calls_afterWrite()) + pickInt(lpend(ghost_lpNew(c.hashmap)) != nil && lpend(ghost_lpNew(c.hashmap)) != lpend(ghost_lpCur(c.hashmap)), 1, 0) && ghost_calls_afterDelete() == pre(ghost_calls_afterDelete()) + pickInt(lpend(ghost_lpNew(c.hashmap)) == nil && lpend(ghost_lpCur(c.hashmap)) != nil, 1, 0)
 //@   ensures [wiring-kept] pre(wired(c)) ==> wired(c)
@@ -1300,6 +1314,11 @@ func estOf[K comparable](s *sketch[K], k K) uint64 {
 //@   site SetExpiresAfter: requires [C19:deadline-restored] c.cache.withExpiration && entry.ExpiresAtNano != math.MaxInt64 && int64(expiresAfter) == entry.ExpiresAtNano-nowNano && expiresAfter > 0
 //@   site SetRefreshableAfter: requires [C19:refresh-restored-or-due] c.cache.withRefresh && entry.RefreshableAtNano != math.MaxInt64 && (entry.RefreshableAtNano > nowNano ==> int64(refreshableAfter) == entry.RefreshableAtNano-nowNano) && (entry.RefreshableAtNano >= 0 && entry.RefreshableAtNano <= nowNano ==> refreshableAfter == 1)
 
+//@ func SaveCacheToFile : C19
+//@   requires c != nil && c.cache != nil && cfg(c.cache) && c.cache.singleflight != nil
+//@   modifies *
+//@   site SaveCacheTo: requires [C19:the-file-holds-nothing-but-this-save] ghost_fileTruncated(file)
+
 //@ func SaveCacheTo : C19
 //@   requires c != nil && c.cache != nil && cfg(c.cache) && c.cache.singleflight != nil
 //@   modifies *
@@ -1313,8 +1332,10 @@ func estOf[K comparable](s *sketch[K], k K) uint64 {
 //@   requires [call-map-wf] mapHas(callsInBulk, kstar) ==> callsInBulk[kstar] != nil && same(callsInBulk[kstar].key, kstar)
 //@   modifies map callsInBulk, call::value, call::err, call::isNotFound, $CACHEFX, ghost_calls_bulkLoad(), ghost_calls_afterFinish(), ghost_visited(*), ghost_calls_BulkLoad(), ghost_calls_BulkReload(), ghost_calls_newPanicError()
 //@   callback bulkLoad: modifies call::value, ghost_calls_BulkLoad(), ghost_calls_BulkReload()
+//@   var cstar *call[K, V]
 //@   callback afterFinish: requires [C08:only-registered-calls-are-finished] cb_c != nil
-//@   callback afterFinish: modifies $CACHEFX
+//@   callback afterFinish: modifies $CACHEFX0, ghost_wgDone(cb_c), ghost_released(cb_c), cb_c.wg
+//@   callback afterFinish: ensures [C08:finishing-a-call-releases-its-waiters-once] ghost_wgDone(cb_c) == pre(ghost_wgDone(cb_c)) + pickInt(cb_c.isFake, 0, 1) && (!cb_c.isFake ==> ghost_released(cb_c))
 //@   callback afterFinish: ensures [clock-stable] pre(ghost_clockRead()) ==> ghost_clockRead() && ghost_now() == pre(ghost_now())
 //@   loop 1: invariant [keys] callsInBulk != nil
 //@   loop 2: invariant [map-kept] mapHas(callsInBulk, kstar) == pre(mapHas(callsInBulk, kstar)) && callsInBulk[kstar] == pre(callsInBulk[kstar])
@@ -1324,9 +1345,21 @@ func estOf[K comparable](s *sketch[K], k K) uint64 {
 //@   loop 3: invariant [C10:extra-keys-become-fake-calls] pre(mapHas(callsInBulk, kstar)) ==> mapHas(callsInBulk, kstar) && callsInBulk[kstar] == pre(callsInBulk[kstar])
 //@   loop 3: invariant [C10:assigned-results-kept] pre(mapHas(callsInBulk, kstar)) ==> (mapHas(res, kstar) ==> same(callsInBulk[kstar].value, res[kstar])) && (!mapHas(res, kstar) ==> callsInBulk[kstar].isNotFound && callsInBulk[kstar].err != nil)
 //@   loop doBulkCall$1:1: invariant [C10:error-to-every-call] ghost_visited(kstar) && mapHas(callsInBulk, kstar) ==> callsInBulk[kstar].err == err && !callsInBulk[kstar].isNotFound
+//@   loop 3: invariant [C10:volunteered-keys-are-fake] !pre(mapHas(callsInBulk, kstar)) && mapHas(callsInBulk, kstar) ==> callsInBulk[kstar].isFake
+//@   loop 3: invariant [keys-kept] mapHas(callsInBulk, kstar) ==> same(callsInBulk[kstar].key, kstar)
+//@   loop doBulkCall$1:1: invariant [keys-kept] mapHas(callsInBulk, kstar) ==> callsInBulk[kstar] != nil && same(callsInBulk[kstar].key, kstar)
 //@   loop doBulkCall$1:2: invariant [finish] callsInBulk != nil
+//@   loop doBulkCall$1:2: invariant [keys-kept] mapHas(callsInBulk, kstar) ==> callsInBulk[kstar] != nil && same(callsInBulk[kstar].key, kstar)
+//@   loop doBulkCall$1:2: invariant [C08:each-call-released-once-when-its-turn-comes] mapHas(callsInBulk, kstar) ==> ghost_wgDone(callsInBulk[kstar]) == entry(ghost_wgDone(callsInBulk[kstar])) + pickInt(ghost_visited(kstar) && !callsInBulk[kstar].isFake, 1, 0)
+//@   loop doBulkCall$1:2: invariant [C08:finished-calls-are-released] ghost_visited(kstar) && mapHas(callsInBulk, kstar) && !callsInBulk[kstar].isFake ==> ghost_released(callsInBulk[kstar])
+//@   loop doBulkCall$1:2: invariant [C08:no-other-call-released] cstar != nil && !(mapHas(callsInBulk, cstar.key) && callsInBulk[cstar.key] == cstar) ==> ghost_wgDone(cstar) == entry(ghost_wgDone(cstar))
 //@   loop doBulkCall$1:2: invariant [clock-stable] pre(ghost_clockRead()) ==> ghost_clockRead() && ghost_now() == pre(ghost_now())
 //@   ensures [clock-stable] pre(ghost_clockRead()) ==> ghost_clockRead() && ghost_now() == pre(ghost_now())
+//@   ensures [C08:every-call-of-the-bulk-is-finished-exactly-once] pre(mapHas(callsInBulk, kstar)) ==> ghost_wgDone(callsInBulk[kstar]) == pre(ghost_wgDone(callsInBulk[kstar])) + pickInt(callsInBulk[kstar].isFake, 0, 1)
+//@   ensures [C08:every-call-of-the-bulk-has-its-waiters-released] pre(mapHas(callsInBulk, kstar)) && !callsInBulk[kstar].isFake ==> ghost_released(callsInBulk[kstar])
+//@   ensures [C08:no-other-call-is-released] cstar != nil && !(mapHas(callsInBulk, cstar.key) && callsInBulk[cstar.key] == cstar) ==> ghost_wgDone(cstar) == pre(ghost_wgDone(cstar))
+//@   ensures [C10:keys-the-loader-volunteered-become-fake-calls] !pre(mapHas(callsInBulk, kstar)) && mapHas(callsInBulk, kstar) ==> callsInBulk[kstar] != nil && callsInBulk[kstar].isFake
+//@   ensures [C10:registered-calls-stay-in-the-bulk] pre(mapHas(callsInBulk, kstar)) ==> mapHas(callsInBulk, kstar) && callsInBulk[kstar] == pre(callsInBulk[kstar])
 //@   ensures [C10:bulk-error-reaches-every-call] err != nil && pre(mapHas(callsInBulk, kstar)) ==> callsInBulk[kstar].err == err && !callsInBulk[kstar].isNotFound
 //@   ensures [C10:bulk-supplied-value-recorded] err == nil && pre(mapHas(callsInBulk, kstar)) && mapHas(ghost_ret_bulkLoad_0[K, V](), kstar) ==> same(callsInBulk[kstar].value, ghost_ret_bulkLoad_0[K, V]()[kstar])
 //@   ensures [C10:bulk-unsupplied-key-is-no-hit] err == nil && pre(mapHas(callsInBulk, kstar)) && !mapHas(ghost_ret_bulkLoad_0[K, V](), kstar) ==> callsInBulk[kstar].isNotFound && callsInBulk[kstar].err != nil
@@ -1385,6 +1418,7 @@ func estOf[K comparable](s *sketch[K], k K) uint64 {
 //@   counted
 //@   nonblocking-sends
 //@   var kstar K
+//@   var cstar *call[K, V]
 //@   note assumes loaders do not panic on the executor path (as for refreshKey)
 //@   requires cfg(c) && c.singleflight != nil && c.singleflight.calls != nil && c.singleflight.isInitialized.Load()
 //@   modifies $LOADFX, ghost_calls_bulkLoad(), ghost_ret_bulkLoad_0(), ghost_ret_bulkLoad_1(), ghost_visited(*), ghost_calls_doBulkCall(), map *
@@ -1392,6 +1426,12 @@ func estOf[K comparable](s *sketch[K], k K) uint64 {
 //@   loop bulkRefreshKeys$1:1: invariant [wiring] wired(c)
 //@   loop bulkRefreshKeys$1:1: invariant [call-maps-distinct] toLoadCalls == nil || toReloadCalls == nil || !same(toLoadCalls, toReloadCalls)
 //@   loop bulkRefreshKeys$1:1: invariant [call-maps-wf] (mapHas(toLoadCalls, kstar) ==> toLoadCalls[kstar] != nil && same(toLoadCalls[kstar].key, kstar)) && (mapHas(toReloadCalls, kstar) ==> toReloadCalls[kstar] != nil && same(toReloadCalls[kstar].key, kstar))
+//@   loop bulkRefreshKeys$1:1: invariant [C08:nothing-released-while-registering] ghost_wgDone(cstar) == pre(ghost_wgDone(cstar))
+//@   loop bulkRefreshKeys$1:1: invariant [C08:registered-calls-are-the-records-in-the-table] (mapHas(toLoadCalls, kstar) ==> ghost_calls(c.singleflight.calls, kstar) == toLoadCalls[kstar] && !toLoadCalls[kstar].isFake) && (mapHas(toReloadCalls, kstar) ==> ghost_calls(c.singleflight.calls, kstar) == toReloadCalls[kstar] && !toReloadCalls[kstar].isFake)
+//@   loop bulkRefreshKeys$1:1: invariant [C08:each-key-registered-in-one-map] !(mapHas(toLoadCalls, kstar) && mapHas(toReloadCalls, kstar))
+//@   site bulkRefreshKeys$1.return: requires [C08:every-call-registered-here-is-finished-before-the-task-ends] cstar != nil && same(cstar.key, kstar) && ((mapHas(toLoadCalls, kstar) && toLoadCalls[kstar] == cstar && !cstar.isFake) || (mapHas(toReloadCalls, kstar) && toReloadCalls[kstar] == cstar && !cstar.isFake)) ==> ghost_wgDone(cstar) == pre(ghost_wgDone(cstar)) + 1
+//@   loop bulkRefreshKeys$1:1: invariant [counter] i == ghost_iter()
+//@   loop bulkRefreshKeys$1:1: invariant [C10:cached-keys-are-reloaded-with-their-old-value-others-are-loaded] i > 0 && ghost_last_startCall_shouldLoad() ==> (rks[i-1].old != nil ==> mapHas(toReloadCalls, rks[i-1].key) && toReloadCalls[rks[i-1].key] == ghost_last_startCall_c[K, V]() && same(toReloadCalls[rks[i-1].key].value, ghost_value(rks[i-1].old))) && (rks[i-1].old == nil ==> mapHas(toLoadCalls, rks[i-1].key) && toLoadCalls[rks[i-1].key] == ghost_last_startCall_c[K, V]())
 //@   loop bulkRefreshKeys$1:2: invariant [wiring] wired(c)
 //@   loop bulkRefreshKeys$1:3: invariant [wiring] wired(c)
 //@   loop bulkRefreshKeys$1:4: invariant [wiring] wired(c)
@@ -1404,6 +1444,7 @@ func estOf[K comparable](s *sketch[K], k K) uint64 {
 
 //@ func (*cache).BulkGet : C10 C08 C20 C11 C01 C03
 //@   var kstar K
+//@   var cstar *call[K, V]
 //@   requires cfg(c) && c.singleflight != nil && ghost_calls_load() == 0
 //@   modifies *
 //@   site getNode: requires [C20:each-distinct-key-looked-up-once] !mapHas(result, key) && !mapHas(misses, key)
@@ -1417,6 +1458,8 @@ func estOf[K comparable](s *sketch[K], k K) uint64 {
 //@   loop 2: invariant [C10:calls-only-for-misses] result != nil && !(mapHas(result, kstar) && mapHas(misses, kstar)) && (mapHas(toLoadCalls, kstar) ==> mapHas(misses, kstar))
 //@   loop 2: invariant [C10:no-load-while-registering-calls] ghost_calls_doBulkCall() == entry(ghost_calls_doBulkCall())
 //@   loop 2: invariant [call-map-wf] !same(toLoadCalls, misses) && (mapHas(toLoadCalls, kstar) ==> toLoadCalls[kstar] != nil && same(toLoadCalls[kstar].key, kstar))
+//@   loop 2: invariant [C08:registered-calls-are-real] mapHas(toLoadCalls, kstar) ==> !toLoadCalls[kstar].isFake
+//@   site BulkGet.return: requires [C08:every-call-registered-here-is-finished-on-every-return] cstar != nil && same(cstar.key, kstar) && mapHas(toLoadCalls, kstar) && toLoadCalls[kstar] == cstar && !cstar.isFake ==> ghost_released(cstar)
 //@   loop 2: invariant [misses-get-their-call] ghost_visited(kstar) && mapHas(misses, kstar) ==> misses[kstar] != nil
 //@   loop 3: invariant [C08:results-come-only-from-calls-that-were-waited-for] mapHas(result, kstar) && mapHas(misses, kstar) ==> ghost_waited(misses[kstar])
 //@   loop 3: invariant [C10:failed-or-unsupplied-keys-stay-absent] result != nil && (mapHas(misses, kstar) ==> misses[kstar] != nil) && (mapHas(result, kstar) && mapHas(misses, kstar) ==> misses[kstar].err == nil)
